@@ -759,6 +759,7 @@ type c12Out struct {
 	raw     []parquet.Row     // row paths only
 	rawCols [][]parquet.Value // convert-rowgroup-chunks only: the values as served by the chunks
 	extra   []c12Extra        // further L1 failures of the path (page slices, seeks)
+	dup     int               // > 0: the output holds the rows this many times (overrides c12Path.dup)
 }
 
 // c12Extra is an L1 failure a path found besides the comparison of its output streams.
@@ -775,6 +776,9 @@ type c12Case struct {
 	batch      int
 	tleaves    []c12Leaf
 	cuts       *rand.Rand // page slice bounds and seek positions of the column-chunk path
+	trows      []parquet.Row // the projected rows, shredded against the target schema by the harness
+	tfile      []byte        // a file holding trows under the target schema (nil: not available)
+	views      *c12View      // composition of row-group views read by the composed-views paths
 }
 
 func (c *c12Case) open() (*parquet.File, error) {
@@ -1273,6 +1277,220 @@ var c12Paths = []c12Path{
 	}},
 }
 
+
+// ---------------------------------------------------------------- views composed of views
+
+// c12View is a composition of row-group views over the rows of the case: leaves are row groups
+// holding the source rows under the source schema (S: file row group, SB: Buffer) or the projected
+// rows under the target schema (T: file row group, TB: Buffer); inner nodes are the library's view
+// constructors: merge = MergeRowGroups(kids, target schema) without sorting columns, multi =
+// MultiRowGroup(kids...) (kids under the target schema), conv = ConvertRowGroup(kid, Convert(target,
+// kid schema)). Whatever the shape, reading the root must yield the projected rows of every leaf
+// in leaf order: a view handed to another view constructor is a row group like any other.
+type c12View struct {
+	op   string
+	kids []*c12View
+}
+
+func (v *c12View) text() string {
+	if len(v.kids) == 0 {
+		return v.op
+	}
+	var parts []string
+	for _, k := range v.kids {
+		parts = append(parts, k.text())
+	}
+	return v.op + "(" + strings.Join(parts, ",") + ")"
+}
+
+func (v *c12View) leafCount() int {
+	if len(v.kids) == 0 {
+		return 1
+	}
+	n := 0
+	for _, k := range v.kids {
+		n += k.leafCount()
+	}
+	return n
+}
+
+func (v *c12View) depth() int {
+	d := 0
+	for _, k := range v.kids {
+		d = max(d, 1+k.depth())
+	}
+	return d
+}
+
+// c12GenView draws a view of the given depth budget; tgtOnly: the view must present the target
+// schema (member of a MultiRowGroup); haveT: a file/buffer under the target schema is available.
+func c12GenView(r *rand.Rand, depth int, tgtOnly, haveT bool) *c12View {
+	leaf := func() *c12View {
+		ops := []string{"S", "SB"}
+		if haveT {
+			ops = []string{"S", "SB", "T", "T", "TB"}
+		}
+		op := ops[r.Intn(len(ops))]
+		if tgtOnly && (op == "S" || op == "SB") {
+			return &c12View{op: "conv", kids: []*c12View{{op: op}}}
+		}
+		return &c12View{op: op}
+	}
+	if depth <= 0 || r.Intn(10) < 4 {
+		return leaf()
+	}
+	switch x := r.Intn(10); {
+	case x < 6:
+		v := &c12View{op: "merge"}
+		for i, n := 0, 2+r.Intn(2); i < n; i++ {
+			v.kids = append(v.kids, c12GenView(r, depth-1, false, haveT))
+		}
+		return v
+	case x < 9:
+		v := &c12View{op: "multi"}
+		for i, n := 0, 2+r.Intn(2); i < n; i++ {
+			v.kids = append(v.kids, c12GenView(r, depth-1, true, haveT))
+		}
+		return v
+	}
+	return &c12View{op: "conv", kids: []*c12View{c12GenView(r, depth-1, false, haveT)}}
+}
+
+// c12RootView: the root is a merge or a multi row group of at least two members.
+func c12RootView(r *rand.Rand, haveT bool) *c12View {
+	for {
+		v := c12GenView(r, 2+r.Intn(2), false, haveT)
+		if (v.op == "merge" || v.op == "multi") && v.depth() >= 1 {
+			return v
+		}
+	}
+}
+
+func (c *c12Case) buildView(v *c12View) (parquet.RowGroup, error) {
+	switch v.op {
+	case "S":
+		f, err := c.open()
+		if err != nil {
+			return nil, err
+		}
+		return parquet.MultiRowGroup(f.RowGroups()...), nil
+	case "T":
+		f, err := parquet.OpenFile(bytes.NewReader(c.tfile), int64(len(c.tfile)))
+		if err != nil {
+			return nil, err
+		}
+		return parquet.MultiRowGroup(f.RowGroups()...), nil
+	case "SB", "TB":
+		schema, rows := c.srcS, c.rows
+		if v.op == "TB" {
+			schema, rows = c.tgtS, c.trows
+		}
+		b := parquet.NewBuffer(schema)
+		for _, row := range rows {
+			if _, err := b.WriteRows([]parquet.Row{row.Clone()}); err != nil {
+				return nil, err
+			}
+		}
+		return b, nil
+	}
+	kids := make([]parquet.RowGroup, len(v.kids))
+	for i, k := range v.kids {
+		rg, err := c.buildView(k)
+		if err != nil {
+			return nil, err
+		}
+		kids[i] = rg
+	}
+	switch v.op {
+	case "merge":
+		return parquet.MergeRowGroups(kids, c.tgtS)
+	case "multi":
+		return parquet.MultiRowGroup(kids...), nil
+	case "conv":
+		conv, err := parquet.Convert(c.tgtS, kids[0].Schema())
+		if err != nil {
+			return nil, err
+		}
+		return parquet.ConvertRowGroup(kids[0], conv), nil
+	}
+	return nil, fmt.Errorf("unknown view %q", v.op)
+}
+
+var errC12NoViews = fmt.Errorf("no composed views for this case")
+
+// c12ViewPath wraps a reader of the composed root view as a path.
+func c12ViewPath(name string, read func(ctx *core.Ctx, c *c12Case, root parquet.RowGroup) (*c12Out, error)) c12Path {
+	return c12Path{name, false, 1, func(ctx *core.Ctx, c *c12Case) (*c12Out, error) {
+		if c.views == nil {
+			return nil, errC12NoViews
+		}
+		root, err := c.buildView(c.views)
+		if err != nil {
+			return nil, err
+		}
+		want := len(c.rows) * c.views.leafCount()
+		if n := root.NumRows(); int(n) != want {
+			return nil, fmt.Errorf("the composed view reports %d rows for %d", n, want)
+		}
+		out, err := read(ctx, c, root)
+		if out != nil {
+			out.dup = c.views.leafCount()
+		}
+		return out, err
+	}}
+}
+
+func init() {
+	c12Paths = append(c12Paths,
+		c12ViewPath("composed-views-rows", func(ctx *core.Ctx, c *c12Case, root parquet.RowGroup) (*c12Out, error) {
+			rr := root.Rows()
+			defer rr.Close()
+			rows, err := c12ReadRows(rr, c.batch)
+			if err != nil {
+				return nil, err
+			}
+			return c.rowsOut(ctx, rows)
+		}),
+		c12ViewPath("composed-views-generic-reader", func(ctx *core.Ctx, c *c12Case, root parquet.RowGroup) (*c12Out, error) {
+			rd := parquet.NewGenericRowGroupReader[any](root, c.tgtS)
+			defer rd.Close()
+			rows, err := c12ReadRows(rd, c.batch)
+			if err != nil {
+				return nil, err
+			}
+			return c.rowsOut(ctx, rows)
+		}),
+		c12ViewPath("composed-views-copy-rows", func(ctx *core.Ctx, c *c12Case, root parquet.RowGroup) (*c12Out, error) {
+			var buf bytes.Buffer
+			w := parquet.NewWriter(&buf, c.tgtS)
+			rr := root.Rows()
+			n, err := parquet.CopyRows(w, rr)
+			rr.Close()
+			if err != nil {
+				return nil, err
+			}
+			if err := w.Close(); err != nil {
+				return nil, err
+			}
+			if n != root.NumRows() {
+				return nil, fmt.Errorf("CopyRows reported %d rows for %d", n, root.NumRows())
+			}
+			return c.fileOut(ctx, buf.Bytes())
+		}),
+		c12ViewPath("composed-views-write-rowgroup", func(ctx *core.Ctx, c *c12Case, root parquet.RowGroup) (*c12Out, error) {
+			var buf bytes.Buffer
+			w := parquet.NewWriter(&buf, c.tgtS)
+			if _, err := w.WriteRowGroup(root); err != nil {
+				return nil, err
+			}
+			if err := w.Close(); err != nil {
+				return nil, err
+			}
+			return c.fileOut(ctx, buf.Bytes())
+		}),
+	)
+}
+
 func c12FirstDiff(exp, got [][]gen.Triple) (col, idx int, desc string) {
 	for c := range exp {
 		n := min(len(exp[c]), len(got[c]))
@@ -1618,6 +1836,7 @@ func c12RandomCase(ctx *core.Ctx, d interface {
 		c.rows = append(c.rows, c12RowOf(c12ShredRow(src, v)))
 		pv := c12ProjectBody(src, tgt, v)
 		cols := c12ShredRow(tgt, pv)
+		c.trows = append(c.trows, c12RowOf(cols))
 		one := make([][]gen.Triple, len(cols))
 		for ci, col := range cols {
 			for _, x := range col {
@@ -1637,6 +1856,9 @@ func c12RandomCase(ctx *core.Ctx, d interface {
 	detail := func(extra map[string]any) map[string]any {
 		m := map[string]any{"source": src.text(), "target": tgt.text(), "mode": tg.mode, "ops": tg.ops,
 			"lean_source": srcText, "lean_target": tgtText, "rows": valTexts, "batch": c.batch}
+		if c.views != nil {
+			m["composed_views"] = c.views.text()
+		}
 		for k, v := range extra {
 			m[k] = v
 		}
@@ -1686,6 +1908,30 @@ func c12RandomCase(ctx *core.Ctx, d interface {
 		}
 	}
 
+	// the projected rows under the target schema (members of the composed views), then the
+	// composition itself
+	if tg.mode != "incompat" {
+		at("target-write", tg.mode, detail(nil))
+		var buf bytes.Buffer
+		_, err := c12Guard(func() (*c12Out, error) {
+			w := parquet.NewWriter(&buf, c.tgtS)
+			_, err := w.WriteRows(append([]parquet.Row(nil), c.trows...))
+			if err == nil {
+				err = w.Close()
+			}
+			return nil, err
+		})
+		if err != nil {
+			ctx.Fail("L1", "target-write-error "+errClass(err), "cannot write the projected rows under the target schema: "+err.Error(), detail(nil))
+		} else {
+			c.tfile = buf.Bytes()
+		}
+		c.views = c12RootView(rand.New(rand.NewSource(r.Int63())), c.tfile != nil)
+		ctx.Hist("composed-views-leaves", fmt.Sprint(c.views.leafCount()))
+		ctx.Hist("composed-views-depth", fmt.Sprint(c.views.depth()))
+		ctx.Hist("composed-views-root", c.views.op)
+	}
+
 	nontrivial := false
 	if tgtText != srcText {
 		for ci, lf := range c.tleaves {
@@ -1726,6 +1972,9 @@ func c12RandomCase(ctx *core.Ctx, d interface {
 	for _, p := range c12Paths {
 		at(p.name, tg.mode, detail(nil))
 		out, err := c12Guard(func() (*c12Out, error) { return p.run(ctx, c) })
+		if err == errC12NoViews {
+			continue
+		}
 		ctx.Hist("path", p.name)
 		if tg.mode == "incompat" {
 			kindChange := tg.what == "group-to-leaf" || tg.what == "leaf-to-group"
@@ -1766,12 +2015,18 @@ func c12RandomCase(ctx *core.Ctx, d interface {
 		}
 		want := exp
 		wantRows := nrows
-		if p.dup == 2 {
+		dup := p.dup
+		if out != nil && out.dup > 0 {
+			dup = out.dup
+		}
+		if dup > 1 {
 			want = make([][]gen.Triple, len(exp))
 			for ci := range exp {
-				want[ci] = append(append([]gen.Triple{}, exp[ci]...), exp[ci]...)
+				for k := 0; k < dup; k++ {
+					want[ci] = append(want[ci], exp[ci]...)
+				}
 			}
-			wantRows = 2 * nrows
+			wantRows = dup * nrows
 		}
 		if err != nil && out == nil {
 			switch {
@@ -1815,7 +2070,9 @@ func c12RandomCase(ctx *core.Ctx, d interface {
 		}
 		key := ""
 		switch {
-		case firstShared >= 0 && sharedToggled && (tg.mode == "widen" || tg.mode == "narrow"):
+		case firstShared >= 0 && sharedToggled && (tg.mode == "widen" || tg.mode == "narrow") && p.name == "convert-rowgroup-chunks":
+			// (only the direct read of ConvertRowGroup(...).ColumnChunks() is the recorded finding;
+			// on every other path a widened/narrowed column that differs is a shared column altered)
 			key, col = tg.mode+"ed-column-keeps-source-levels:"+p.name, firstShared
 		case firstAdded >= 0 && (firstShared < 0 || p.chunks):
 			// (on the column-chunk paths a short added column also misaligns the rows)
